@@ -379,6 +379,7 @@ func (c *osstopC) Exec(op string) string {
 	app.VerifCommander = nil
 	app.VerifBackoff = nil
 	app.VerifStopCtx = nil
+	app.VerifStopCtxOf = nil
 	f, ok := c.parse(op)
 	if !ok {
 		return "bad-op"
@@ -435,6 +436,7 @@ func (c *osstopC) Gen(r *rand.Rand, tier string, emit func(string)) {
 	app.VerifCommander = nil
 	app.VerifBackoff = nil
 	app.VerifStopCtx = nil
+	app.VerifStopCtxOf = nil
 	sem := make(chan struct{}, 12)
 	var wg sync.WaitGroup
 	for _, op := range ops {
